@@ -6,6 +6,15 @@ ALL = ["C%02d" % i for i in range(1, 20)]
 
 # id -> (technique, level text, level note, design ref)
 CHECKS = {
+ "C06": ("bounded-exhaustive enumeration of closure program families run on the real compiler+VM against a reference interpreter with by-reference capture",
+         "F-closure (8 creation contexts incl. callees at non-zero frame offsets, loop iterations, closures in closures, callees invoked from loops x 6 kinds of captured variable x read/write/read-write/inner-closure bodies x sibling sharing x export through global/table/argument x module placement next to a decoy module with different closure bodies at the same card positions) and F-closure-nest (middle and inner closures referencing every ordered selection of the enclosing variables, 3 contexts); every closure is called inside its scope, after the scope ended and once per loop iteration afterwards; host-call log and globals must equal the reference.",
+         "Closure nesting <= 3 levels; unused statement values above a captured loop local are an open finding (dedicated sub-family).", "DESIGN.md §4 C06"),
+ "C08": ("bounded-exhaustive enumeration of module trees x call sites x names x import lists against an independent resolver + reference run",
+         "F-resolve: 128 module trees reusing the names f/g across root, a, a.b, b x call site in root/a/a.b x 10 name forms x static/dynamic call x 20 import lists (function and module-prefix imports, super. up to three levels, missing dot, duplicates, ambiguous pairs, library imports); F-badnames: invalid/reserved/duplicate function and module names and user functions named like library ones at three levels; F-call: arity 0-3 binding, caller-locals canary, return positions, recursion. The compile verdict (must compile / must be rejected) and, if it compiles, which body ran (read from the host-call log) must match the independent resolver.",
+         "Tree depth <= 2, two names per module; a must-be-error module may fail with any error variant; trees with merely odd imports are only required not to crash.", "DESIGN.md §4 C08"),
+ "C10": ("bounded-exhaustive enumeration of compiled programs, each decoded completely by an independent bytecode verifier (own opcode table cross-checked through the hook)",
+         "Every program that compiles from the C01, C04 (compile half, not restricted to well-scoped input), C06 and C08 families is checked over the whole artefact: decode to the end, final Exit, jump operands and all labels on instruction starts, string operands complete UTF-8 in data, function pointer handles/arity, closure handles unique and labelled, local / for-each / upvalue / global index ranges, ids<->names bijection, trace keys and coverage, disassembler boundaries.",
+         "The verifier checks structure, not behaviour; programs the compiler rejects are skipped.", "DESIGN.md §4 C10"),
  "C01": ("bounded-exhaustive enumeration of program families (index->program bijections) run on the real compiler+VM against an independent reference interpreter",
          "Every program of the families F-expr (all depth-1 expressions over a 16-leaf operand alphabet, depth 2 over one representative per distinct result), F-stmt (15 contexts x ordered pairs, thorough: triples, of a ~65-statement alphabet, epilogue logging every visible variable), F-nest, F-call, F-limits and the dedicated inline-Array family is compiled and run for real; result kind, globals by name and the host-call log with deep-converted arguments must equal the outcome of a tree-walking reference interpreter with named variables. Failures are delta-debugged to a canonical minimal program which is the finding key.",
          "Program shapes bounded by the families; behaviour the sources leave undefined (integer overflow, NaN, out-of-range Get, arity mismatches, reads of never-assigned globals after another assignment) is executed but not compared; open findings listed in KNOWN_FINDINGS.txt (inline Array operands, value-producing statements in loops).", "DESIGN.md §4 C01, §3"),
